@@ -53,7 +53,7 @@ package core
 
 //@ func FindCertificateIssuerCandidates
 //@   props C07 C04 C05
-//@   requires extensions != nil && chains != nil && issuer != nil
+//@   requires chains != nil && issuer != nil
 //@   requires certs_nonnil: chainsOK(chains)
 //@   assigns E.uint8, X.stream, X.spos, fresh:E.*core.CertificateChainEntry
 //@   ensures err == nil ==> forall k int :: 0 <= k && k < len(ret) ==> ret[k] != nil && ret[k].Certificate != nil && ret[k].RawCertificate != nil
